@@ -56,6 +56,7 @@ func GenConfig(d *core.Driver, r interface{ Intn(int) int }) goprog.Config {
 	cfg.RangePanic = !d.InScope("panic-while-range-active")
 	cfg.AssertMsgDT = !d.InScope("assertion-message-defined-type")
 	cfg.DeferBuiltinDT = !d.InScope("deferred-builtin-defined-type")
+	cfg.PanicDefType = !d.InScope("panic-value-defined-type")
 	switch r.Intn(4) {
 	case 0:
 		cfg.Stmts, cfg.Funcs = 6, 2
